@@ -1,9 +1,12 @@
 #!/bin/bash
-# Build the verification harness offline from files on disk.
-set -e
+# Build the verification harness offline from files on disk (about 2 minutes on 16 cores).
+set -e -o pipefail
 cd "$(dirname "$0")"
 export CARGO_NET_OFFLINE=true
 cp /repo/Cargo.lock harness/Cargo.lock
+mkdir -p .cache && cp /repo/Cargo.lock .cache/Cargo.lock.repo
 cp /repo/rust-toolchain.toml harness/rust-toolchain.toml
+mkdir -p evidence replays .cache
 (cd harness && cargo build --release --offline 2>&1 | tail -3)
-mkdir -p evidence replays
+test -x harness/target/release/vcheck
+echo "setup ok"
